@@ -18,6 +18,9 @@ TRUSTED = [
     "this run (stubbed fork/waitpid seams and real children, incl. the wait status each real child ended with)",
     "the statement list of CommandLineTestRunner::initializeTestRun regenerated as Gen initStatements (switch, spelled `else if`); "
     "shape checks of CommandLineArguments::parse (-p) and CommandLineTestRunner::runAllTests",
+    "argument vector -> configuration: property C12's parser model CommandLine.parse, used read-only "
+    "(Model/SeparateProcessArgv.lean); tied here by the command-line cases of this run (repeat / shuffle options in every "
+    "spelling and order next to -p, repeated runs checked repetition by repetition) and to the source by C12's own check",
     "extractor translate/extract_sepproc.py: retry bound and fork/waitpid/EINTR messages read off the regenerated loop, the "
     "if/else-if chain of SetTestFailureByStatusCode as a table, position of the per-test flag in TestRegistry::runAllTests; shape "
     "checks of the fork-less variant, the two seam implementations, UtestShell::runOneTest, TestResult::addFailure/countRun",
@@ -43,7 +46,7 @@ ASSUMPTIONS = [
 ]
 RULE = ("registries of 1..12 tests in one or several groups (dying tests also 2nd..4th of their group; entries of kind "
         "IgnoredUtestShell with dying bodies, run-ignored on through the API or -ri, or off), separate-process mode "
-        "set through the registry API or through CommandLineTestRunner with -p combined with every subset/order of the switches that do not change which tests run (-c -v -vv -ojunit -oteamcity -r1 -b -s<seed> -ri and filters that select everything); a second harness build without "
+        "set through the registry API or through CommandLineTestRunner with -p combined with every subset/order of the switches that do not change which tests run (-c -v -vv -ojunit -oteamcity -r1 -b -s<seed> -ri and filters that select everything) and with the repeat / shuffle options in every spelling and order (bare -r / -s directly in front of -p, -r2, -r 2, -r 3, -s 2, ...: the run is repeated, every repetition is checked); a second harness build without "
         "fork/waitpid/kill; per test either a scripted fork/waitpid outcome list "
         "(exit codes, signals with and without core flag, stops, continued-style words, EINTR runs around the retry bound, "
         "waitpid errors, fork failure, trailing results after the child's end, scripts that never end) or a real child that "
@@ -145,16 +148,54 @@ def script(rng, t):
 CLI_OTHER = ["-c", "-v", "-vv", "-ojunit", "-oteamcity", "-r1", "-b", "-ri", "-gg", "-nt", "-xgZZZ", "-xnZZZ"]
 
 
-def cli_line(rng):
-    """`-p` combined with a random subset, in random order, of the switches that do not change which tests run"""
-    others = [a for a in CLI_OTHER if rng.random() < 0.3]
+# the repeat and shuffle options in every spelling: the optional count / seed glued, as an argument of its own, or
+# absent (then whatever follows -- e.g. `-p` -- is NOT their value)
+REPEAT_FORMS = [["-r"], ["-r"], ["-r"], ["-r2"], ["-r", "2"], ["-r3"], ["-r", "1"], ["-r", "3"]]
+SHUFFLE_FORMS = [["-s"], ["-s"], ["-s", "2"], ["-s", "1"], ["-s", "3"]]
+
+
+def cli_line(rng, repeats=True):
+    """`-p` combined with a random subset, in random order, of the switches that do not change which tests run;
+    repeats: also the repeat / shuffle options with a separate or missing count (a word group stays together)"""
+    groups = [[a] for a in CLI_OTHER if rng.random() < 0.3]
     if rng.random() < 0.25:
-        others.append("-s%d" % rng.randrange(1, 99999))
-    rng.shuffle(others)
-    others.insert(rng.randrange(len(others) + 1), "-p")
-    if rng.random() < 0.1:
-        others.insert(rng.randrange(len(others) + 1), "-p")         # given twice
-    return "cli " + " ".join(others[:10] if "-p" in others[:10] else ["-p"] + others[:9])
+        groups.append(["-s%d" % rng.randrange(1, 99999)])
+    if repeats and rng.random() < 0.3:
+        groups.append(list(rng.choice(REPEAT_FORMS)))
+    if repeats and rng.random() < 0.12:
+        groups.append(list(rng.choice(SHUFFLE_FORMS)))
+    rng.shuffle(groups)
+    while sum(len(g) for g in groups) > 9:
+        groups.pop()
+    groups.insert(rng.randrange(len(groups) + 1), ["-p"])
+    if rng.random() < 0.1 and sum(len(g) for g in groups) < 10:
+        groups.insert(rng.randrange(len(groups) + 1), ["-p"])         # given twice
+    return "cli " + " ".join(a for g in groups for a in g)
+
+
+def cli_repeat_cases(rng):
+    """the order and spelling of -r / -s next to -p: a bare `-r` / `-s` directly in front of `-p` (the option's optional
+    value is absent: `-p` is the -p option), the other orders and spellings, with further switches in between; a small
+    registry in which a test dies, so that a lost `-p` is the runner's death"""
+    combos = [["-r", "-p"], ["-p", "-r"], ["-r2", "-p"], ["-r", "2", "-p"], ["-p", "-r", "2"], ["-r", "-ri", "-p"],
+              ["-s", "-p"], ["-p", "-s"], ["-s", "2", "-p"], ["-r", "-s", "-p"], ["-s", "-r", "-p"], ["-r", "3", "-p"],
+              ["-r", "1", "-p"], ["-r", "-b", "-p"], ["-b", "-r", "-p"], ["-r", "-p", "-ojunit"], ["-v", "-r", "-p", "-c"],
+              ["-r", "-r", "-p"], ["-r1", "-r", "-p"], ["-r", "-p", "-r1"], ["-oteamcity", "-r", "-p"], ["-r", "-p", "-p"]]
+    for _ in range(6):
+        k = [[a] for a in rng.sample(CLI_OTHER, 2)]
+        k.insert(rng.randrange(3), rng.choice([["-r", "-p"], ["-s", "-p"], ["-r", "-p"]]))
+        combos.append([a for g in k for a in g])
+    out = []
+    for i, c in enumerate(combos):
+        dying = rng.choice(["signal 11", "signal 9", "exit 3", "signal 6", "signal 15"])
+        if i % 3 == 2:
+            ops = ["tests 4", "cli " + " ".join(c), "real 0 body none 0", "ign 1", "real 1 body %s" % dying,
+                   "w 2 st %x" % rng.choice([st_sig(11), st_exit(2), 0]), "real 3 %s fail 0" % rng.choice(PHASES), "run"]
+        else:
+            ops = ["tests 3", "cli " + " ".join(c), "real 0 body none 0",
+                   "real 1 %s %s" % (rng.choice(PHASES), dying), "real 2 body none 0", "run"]
+        out.append(ops)
+    return out
 
 
 def cli_pairs_cases(rng):
@@ -346,7 +387,7 @@ def ticked_case(rng, i):
     bound+2 = 32 are enough to give up); controls: a child that ends after a few interruptions only must NOT be lost"""
     ops = ["tests 4"]
     if i % 2:
-        ops.append(cli_line(rng))
+        ops.append(cli_line(rng, repeats=False))
     ops.append("real 0 body none 0")
     ops.append("real 1 %s sleep %d" % (rng.choice(["setup", "body", "teardown"]), rng.choice([400, 450, 500])))
     ops.append("tick 1 %d" % rng.choice([1000, 1500, 2000]))
@@ -488,6 +529,8 @@ def generate(rng, tier):
         out.append(("ticked", ticked_case(rng, i)))
     for ops in cli_pairs_cases(rng):
         out.append(("cliargs", ops))
+    for ops in cli_repeat_cases(rng):
+        out.append(("clirepeat", ops))
     # the REAL fork seam fails: the case process drops root and sets RLIMIT_NPROC to 0
     for i in range(3 if quick else 16):
         out.append(("forkfail", forkfail_case(rng, i)))
@@ -614,10 +657,18 @@ def observe(r, rep):
                 rep.count("child_end.unreadable")
         elif l.startswith("inrunner "):
             rep.count("test_executed_inside_runner")
+        elif l.startswith("round "):
+            rep.count("cli_runs.repetition_" + l.split()[1])
         elif l.startswith("exitcode "):
             rep.count("cli_runs.exitcode_" + ("zero" if l.split()[1] == "0" else "nonzero"))
         elif l.startswith("childtext "):
             rep.count("child_failure_text_on_shared_stdout." + ("yes" if l.split()[2] != "0" else "none_expected_or_seen"))
+    for o in r.ops:
+        w = o.split()
+        if w and w[0] == "cli":
+            for k in range(1, len(w) - 1):
+                if w[k] in ("-r", "-s") and w[k + 1] == "-p":
+                    rep.count("cli_runs.bare_%s_directly_before_-p" % w[k])
     if any(o.startswith("ign ") for o in r.ops):
         ri = "ri" in r.ops or any(o.startswith("cli ") and "-ri" in o.split() for o in r.ops)
         rep.count("ignored_kind_entries.run_ignored_" + ("on" if ri else "off"))
